@@ -1,15 +1,15 @@
 From Tramp Require Import Model.Base Model.Fee Model.Classify Model.Node Model.Provider Model.ProviderSys Model.Sys.
 From Tramp Require Import Proofs.SysBasics Proofs.SysReach Proofs.SysPreimage Proofs.SysCalls Proofs.SysNode Proofs.SysSafety Props.C08.
 Check C08_write_ahead : forall c n t0 h0 a0 evs,
-  node_ok n -> hist_wf c (sys_start n t0 h0 a0) evs ->
+  node_ok n -> hist_wf false c (sys_start n t0 h0 a0) evs ->
   let s := after c n t0 h0 a0 evs in
   busy (nd s) \/ payrun (nd s) <> 0 -> hot (nd s).
 Check C08_free_only_when_nothing_live : forall c n t0 h0 a0 evs,
-  node_ok n -> hist_wf c (sys_start n t0 h0 a0) evs ->
+  node_ok n -> hist_wf false c (sys_start n t0 h0 a0) evs ->
   let s := after c n t0 h0 a0 evs in
   free_view (ds (nd s)) -> all_failed (parts (nd s)) /\ payrun (nd s) = 0.
 Check C08_marker_before_pay : forall c n t0 h0 a0 evs ev cid b am mf md rt,
-  node_ok n -> hist_wf c (sys_start n t0 h0 a0) evs ->
+  node_ok n -> hist_wf false c (sys_start n t0 h0 a0) evs ->
   let s := after c n t0 h0 a0 evs in
   In (OCall cid (QPay b am mf md rt)) (snd (step c s ev)) -> hot (nd s).
 Check C08_succeeded_record_holds_preimage : forall (good : list N -> Prop) c evs s,
